@@ -67,6 +67,7 @@ type channel struct {
 	gorumsStream    ordering.Gorums_NodeStreamClient
 	streamMut       sync.RWMutex
 	streamBroken    atomicFlag
+	streamUp        chan struct{} // signals that a broken stream has been re-created
 	connEstablished atomicFlag
 	parentCtx       context.Context
 	streamCtx       context.Context
@@ -89,6 +90,7 @@ func newChannel(n *RawNode) *channel {
 		latency:         -1 * time.Second,
 		rand:            rand.New(rand.NewSource(time.Now().UnixNano())),
 		responseRouters: make(map[uint64]responseRouter),
+		streamUp:        make(chan struct{}, 1),
 	}
 	// parentCtx controls the channel and is used to shut it down
 	c.parentCtx = n.newContext()
@@ -378,6 +380,11 @@ func (c *channel) reconnect(maxRetries float64) {
 		if err == nil {
 			c.streamBroken.clear()
 			c.streamMut.Unlock()
+			// wake up the receiver if it is waiting to retry: replies may arrive now
+			select {
+			case c.streamUp <- struct{}{}:
+			default:
+			}
 			return
 		}
 		c.cancelStream()
@@ -397,6 +404,8 @@ func (c *channel) reconnect(maxRetries float64) {
 		select {
 		case <-time.After(time.Duration(delay)):
 			retries++
+		case <-c.streamUp:
+			// the stream may have been re-created meanwhile; check again at once
 		case <-c.parentCtx.Done():
 			return
 		}
